@@ -621,4 +621,118 @@ def translate_inverse() -> tuple[str, dict]:
     return prog_coq(P), side
 
 
-GEN = {'RotInverse_gen': translate_inverse}
+# =============================================================================================== shapes of the pivot searches
+# Round 5.  A TOLERANT reader of the pivot searches of inverse(), independent of the program translator above (which fails closed on
+# every pivot idiom but the one of the program language): per search loop `for m in ..: va = abs(L[m][c]); if va CMP la: pivrow = m;
+# la = va` - which comparison, how `la` / `pivrow` start (constant + sentinel; the diagonal row with its entry, signed or under
+# abs()), and which test reports "no inverse" (the sentinel surviving; `la == 0`).  What it cannot classify becomes SeedOther /
+# MissOther, which Rot/RotPivot.v rejects; only a method without any recognisable pivot search raises.
+PV_CMP = {'Gt': 'PGt', 'GtE': 'PGe', 'Lt': 'PLt', 'LtE': 'PLe'}
+
+
+def _strip_abs(e: ast.expr) -> tuple[ast.expr, bool]:
+    if isinstance(e, ast.Call) and isinstance(e.func, ast.Name) and e.func.id == 'abs' and len(e.args) == 1 and not e.keywords:
+        return e.args[0], True
+    if isinstance(e, ast.Call) and isinstance(e.func, ast.Attribute) and e.func.attr == 'fabs' and len(e.args) == 1:
+        return e.args[0], True
+    return e, False
+
+
+def _is_number(e: ast.expr | None) -> bool:
+    if isinstance(e, ast.UnaryOp) and isinstance(e.op, (ast.USub, ast.UAdd)):
+        e = e.operand
+    return isinstance(e, ast.Constant) and isinstance(e.value, (int, float)) and not isinstance(e.value, bool)
+
+
+def _number(e: ast.expr) -> float:
+    if isinstance(e, ast.UnaryOp):
+        return -_number(e.operand) if isinstance(e.op, ast.USub) else _number(e.operand)
+    return float(e.value)      # type: ignore[attr-defined]
+
+
+def _assigned(st: ast.stmt) -> list[tuple[str, ast.expr]]:
+    if isinstance(st, ast.Assign) and len(st.targets) == 1 and isinstance(st.targets[0], ast.Name):
+        return [(st.targets[0].id, st.value)]
+    if isinstance(st, ast.AnnAssign) and isinstance(st.target, ast.Name) and st.value is not None:
+        return [(st.target.id, st.value)]
+    return []
+
+
+def pivot_shapes(fn: ast.FunctionDef) -> list[dict]:
+    shapes: list[dict] = []
+
+    def block(stmts: list[ast.stmt]) -> None:
+        for k, st in enumerate(stmts):
+            for sub in ('body', 'orelse', 'finalbody'):
+                inner = getattr(st, sub, None)
+                if isinstance(inner, list) and inner and isinstance(inner[0], ast.stmt) and not isinstance(st, (ast.FunctionDef, ast.ClassDef)):
+                    block(inner)
+            if not (isinstance(st, ast.For) and isinstance(st.target, ast.Name)):
+                continue
+            mvar = st.target.id
+            ifs = [x for x in st.body if isinstance(x, ast.If)]
+            if len(ifs) != 1 or not isinstance(ifs[0].test, ast.Compare) or len(ifs[0].test.ops) != 1:
+                continue
+            asg = dict(a for x in ifs[0].body for a in _assigned(x))
+            piv = next((t for t, v in asg.items() if isinstance(v, ast.Name) and v.id == mvar), None)
+            if piv is None:
+                continue                      # not a search that records a row
+            test = ifs[0].test
+            opn = type(test.ops[0]).__name__
+            left, right = test.left, test.comparators[0]
+            la = right.id if isinstance(right, ast.Name) and right.id in asg else left.id if isinstance(left, ast.Name) and left.id in asg \
+                else None
+            if la is not None and isinstance(left, ast.Name) and left.id == la:      # `la < va` is `va > la`
+                opn = {'Gt': 'Lt', 'Lt': 'Gt', 'GtE': 'LtE', 'LtE': 'GtE'}.get(opn, opn)
+            shape = {'line': st.lineno, 'cmp': PV_CMP.get(opn, None), 'seed': 'SeedOther', 'miss': 'MissOther'}
+            # how la / pivrow start: the last assignments before the loop, in this block
+            init: dict[str, ast.expr] = {}
+            for prev in stmts[:k]:
+                for t, v in _assigned(prev):
+                    init[t] = v
+            if la is not None and la in init and piv in init:
+                v_la, v_piv = init[la], init[piv]
+                if _is_number(v_la) and (_is_number(v_piv) or isinstance(v_piv, ast.Constant) and v_piv.value is None):
+                    rows_may_be = {0, 1, 2}
+                    if not (_is_number(v_piv) and _number(v_piv) in rows_may_be):
+                        shape['seed'] = f'(SeedSentinel {"true" if _number(v_la) == 0 else "false"})'
+                else:
+                    core, under_abs = _strip_abs(v_la)
+                    if isinstance(core, ast.Subscript) and isinstance(core.value, ast.Subscript) and \
+                            isinstance(v_piv, (ast.Name, ast.Constant)) and ast.unparse(core.value.slice) == ast.unparse(v_piv):
+                        shape['seed'] = f'(SeedRow {"false" if under_abs else "true"})'      # signed = not under abs()
+            # the test that reports "no inverse": the first `if ..: raise` after the loop that looks at pivrow or la
+            for nxt in stmts[k + 1:]:
+                if isinstance(nxt, ast.If) and len(nxt.body) == 1 and isinstance(nxt.body[0], ast.Raise) and not nxt.orelse:
+                    names = {x.id for x in ast.walk(nxt.test) if isinstance(x, ast.Name)}
+                    t = nxt.test
+                    if piv in names and la not in names:
+                        shape['miss'] = 'MissSentinel'
+                    elif la in names and piv not in names:
+                        if isinstance(t, ast.Compare) and len(t.ops) == 1 and isinstance(t.ops[0], ast.Eq) and \
+                                isinstance(t.left, ast.Name) and _is_number(t.comparators[0]) and _number(t.comparators[0]) == 0:
+                            shape['miss'] = 'MissValueZero'
+                        elif isinstance(t, ast.UnaryOp) and isinstance(t.op, ast.Not) and isinstance(t.operand, ast.Name):
+                            shape['miss'] = 'MissValueZero'
+                    break
+            shapes.append(shape)
+    block(fn.body)
+    return shapes
+
+
+def translate_pivot() -> tuple[str, dict]:
+    C = Classes(ast.parse(src_text('math.py')))
+    m1, m2 = C.method('Matrix', 'inverse'), C.method('FrozenMatrix', 'inverse')
+    if m1 is None or m2 is None or m1[1] is not m2[1]:
+        raise TranslateError('inverse: not one shared definition for Matrix and FrozenMatrix')
+    shapes = pivot_shapes(m1[1])
+    if not shapes:
+        raise TranslateError('inverse: no pivot search (a loop that records the row of the largest entry) found')
+    items = [f'PivotShape {s["cmp"] or "PLe"} {s["seed"] if s["cmp"] else "SeedOther"} {s["miss"]}' for s in shapes]
+    out = ['(* GENERATED by translate/c04_inverse.py from src/srctools/math.py (pivot searches of MatrixBase.inverse). Do not edit. *)',
+           'From Coq Require Import List.', 'From SV Require Import Rot.RotPivot.', 'Import ListNotations.', '',
+           'Definition pivot_shapes_today : list pivot_shape := [' + '; '.join(items) + '].', '']
+    return '\n'.join(out), {'pivot_shapes': [{k: v for k, v in s.items() if k != 'line'} for s in shapes]}
+
+
+GEN = {'RotInverse_gen': translate_inverse, 'RotPivot_gen': translate_pivot}
